@@ -2,7 +2,8 @@
 # MANIFEST.setup_cmd: build the framework from files on disk only (offline).
 set -e
 cd "$(dirname "$0")"
-export PYTHONPATH=/repo PYTHONHASHSEED=0
+export PANDORA_REPO="${PANDORA_REPO:-/repo}"
+export PYTHONPATH="$PANDORA_REPO" PYTHONHASHSEED=0
 mkdir -p build .cache/numba evidence replays coq/Gen
 # 1. regenerate every Gen/*.v from the current /repo
 for t in translator/gen_*.py; do
